@@ -44,6 +44,33 @@ CLAIMED['C11'] = dict(
     technique='TLA+ crash/recovery model + TLC; fault-injection replay of TLC histories on the real code; forced async schedules',
     design_ref='3/C11')
 
+_LINEN = ('LinenScope.tla: a state machine executing module programs one public call at a time (param / variable read+write / sow / '
+          'perturb / make_rng / Mapping-valued put_variable / construct-and-call child with explicit or automatic name / second call of '
+          'the same instance / return), every error outcome explicit; phase 1 = init (program chosen op by op), phase 2 = apply of the same '
+          'program on init\'s tree (exact, parameter dropped or reshaped, state dropped or emptied) under every mutable filter and rng set. '
+          'TLC checks exhaustively (bounded programs) the invariants; behaviours from tlc -simulate (<= 8 ops, depth 2, names a/b/ab) and '
+          'exhaustive focused alphabets are compiled to real nn.Modules and init/apply are executed and compared step by step. ')
+CLAIMED['C01'] = dict(
+    text=_LINEN + 'C01 verdicts: observation values, sow results, returned collections (exactly the existing ones matching mutable), '
+         'ModifyScopeVariableError on immutable writes, bit-identity of variables / rngs / Mapping arguments (snapshots), no aliasing of '
+         'returned trees, repeatability, inertness of intermediates mutability and capture_intermediates on the primary output.',
+    technique='TLA+ state machine + TLC invariants; spec->code replay of generated module programs with snapshot comparison',
+    design_ref='3/C01')
+CLAIMED['C02'] = dict(
+    text=_LINEN + 'C02 verdicts: submodule names (explicit / <Class>_<i>), variable paths of init and apply results, NameInUseError on clashes, '
+         'apply-of-init needs no initialisation, ScopeParamNotFoundError / ScopeParamShapeError / ScopeCollectionNotFound on edited trees; '
+         'extras: lazy_init / eval_shape / jit(init) give the structure of concrete init for several mutable filters, bind/unbind, child '
+         'applied standalone on its subtree. Not modelled: nn.share_scope, compact_name_scope, setup-style declaration order.',
+    technique='TLA+ state machine + TLC invariants; spec->code replay; structural comparison for shape-only init',
+    design_ref='3/C02')
+CLAIMED['C09'] = dict(
+    text=_LINEN + 'C09 verdicts: key identities (seed stream, path, per-scope count; concatenated path without the separator fix): two '
+         'draws have equal key bits iff the specification gives them equal identities, across init and apply, for make_rng and parameter '
+         'initialisers, with the missing-stream fallback to params, in both flag settings toggled in one process; TLC proves NoReuse with '
+         'the separator and finds the (a,b)/(ab) collision without it.',
+    technique='TLA+ key-identity model + TLC; spec->code replay comparing key bits with identities (bijection check)',
+    design_ref='3/C09')
+
 NOT_YET = 'check not built yet in this round (planned, see DESIGN.md section 3); not claimed until its specification is bound to the code'
 ALL = ['C%02d' % i for i in range(1, 21)]
 
